@@ -4,11 +4,37 @@ and replays violations in a fresh process, matches known findings, writes eviden
 import fcntl, hashlib, json, os, re, shutil, subprocess, sys, time
 
 VERIF = os.path.dirname(os.path.dirname(os.path.abspath(__file__)))
-REPO = os.environ.get("VERIF_REPO", "/repo")
+REPO = os.path.realpath(os.environ.get("VERIF_REPO", "/repo"))
 SIM = os.path.join(VERIF, "sim")
 BIN = os.path.join(VERIF, "bin")
 WORK = os.path.join(VERIF, "work")
 TARGET = os.path.join(VERIF, "target")
+SHADOW = None
+if REPO != "/repo":
+    # Sensitivity runs against a scratch copy of the repository (never registered in MANIFEST):
+    # a shadow copy of the simulator workspace whose path dependencies point at that copy, with
+    # its own build output, so that it can run next to checks of /repo itself.
+    SHADOW = hashlib.sha256(REPO.encode()).hexdigest()[:10]
+    _root = os.path.join(WORK, "shadow-" + SHADOW)
+    SIM = os.path.join(_root, "sim")
+    BIN = os.path.join(_root, "bin")
+    TARGET = os.path.join(_root, "target")
+    WORK = os.path.join(_root, "work")
+
+
+def prepare_shadow():
+    if not SHADOW:
+        return
+    root = os.path.dirname(SIM)
+    os.makedirs(root, exist_ok=True)
+    subprocess.run(["rsync", "-a", "--delete", "--exclude", "target", os.path.join(VERIF, "sim") + "/", SIM + "/"], check=True)
+    subprocess.run(["rsync", "-a", "--delete", os.path.join(VERIF, "fixtures") + "/", os.path.join(root, "fixtures") + "/"], check=True)
+    for rel in ("simnode/Cargo.toml", "simmiri/Cargo.toml"):
+        f = os.path.join(SIM, rel)
+        with open(f) as fh:
+            t = fh.read()
+        with open(f, "w") as fh:
+            fh.write(t.replace('path = "/repo/rcgen"', 'path = "%s/rcgen"' % REPO))
 DEFAULT_SEED = 20261003
 
 
@@ -313,6 +339,8 @@ def confirm_replay(binary, engine, path, want_class, env=None):
 # ---------------------------------------------------------------- evidence ---------------
 
 def write_evidence(prop, tier, level, coverage, assumptions, wall, violations):
+    if SHADOW:
+        return  # runs against a scratch copy are not evidence
     os.makedirs(os.path.join(VERIF, "evidence"), exist_ok=True)
     doc = {
         "property_id": prop, "tier": tier, "seed": seed(), "level": level,
@@ -1212,6 +1240,7 @@ def replay(path):
 
 def main(argv):
     try:
+        prepare_shadow()
         if not argv:
             print(__doc__)
             return 2
